@@ -359,6 +359,16 @@ def gen_dataset(rng, opts=None):
                                     seen.add(e)
                                     obs.append(list(e))
                 d['observations'] = obs
+    if o.odd_paths and d['records_camera'] and all(d[k] is None for k in ('keypoints', 'descriptors', 'global_features', 'matches', 'observations')):
+        # image records that carry no features: their paths too may be legal relative paths NOT in normal form (the text of the file
+        # is the value; nothing derives a file name from them)
+        for row in d['records_camera']:
+            if rng.random() < 0.4:
+                sub, tag = rng.choice([('./', 'dot'), ('odd//', 'dbl'), ('odd/./', 'cur'), ('odd/x/../', 'up'), ('odd\\', 'bsl')])
+                head, _, tail = row[2].rpartition('/')
+                row[2] = f'{sub}{tail[:-4]}_{tag}{tail[-4:]}'
+        seen = {}
+        d['records_camera'] = [r for r in d['records_camera'] if seen.setdefault((r[0], r[1]), r) is r]
     return d
 
 
